@@ -479,14 +479,24 @@ Proof.
   destruct (Rltb 0 x) eqn:E1; [ring|]. apply pRltb_false in E1. assert (Hx0 : x = 0) by lra. rewrite Hx0.
   destruct (Rltb 0 0); ring.
 Qed.
-Lemma cumsum_length l : forall acc, length (cumsum_from Rops acc l) = S (length l).
-Proof. induction l as [|x l IH]; intros acc; cbn [cumsum_from length]; [reflexivity | rewrite IH; reflexivity]. Qed.
-Lemma cumsum_nth l : forall acc s, (s <= length l)%nat -> nth s (cumsum_from Rops acc l) 0 = acc + rsum (firstn s l).
+Lemma cumsum_acc_length l : forall acc, length (cumsum_acc Rops acc l) = length l.
+Proof. induction l as [|x l IH]; intros acc; cbn [cumsum_acc length]; [reflexivity | rewrite IH; reflexivity]. Qed.
+Lemma cumsum_acc_nth l : forall acc s, (s < length l)%nat -> nth s (cumsum_acc Rops acc l) 0 = acc + rsum (firstn (S s) l).
 Proof.
-  induction l as [|x l IH]; intros acc s Hs; cbn [cumsum_from].
-  - cbn [length] in Hs. replace s with 0%nat by lia. cbn [nth firstn]. rewrite rsum_nil. lra.
-  - destruct s as [|s]; [cbn [nth firstn]; rewrite rsum_nil; lra|].
-    cbn [nth firstn length] in *. rewrite IH by lia. rewrite rsum_cons. cbn [nadd Rops]. lra.
+  induction l as [|x l IH]; intros acc s Hs; [cbn in Hs; lia|]. cbn [cumsum_acc nadd Rops].
+  change (firstn (S s) (x :: l)) with (x :: firstn s l). rewrite rsum_cons.
+  destruct s as [|s]; [cbn [nth firstn]; rewrite rsum_nil; lra|].
+  cbn [nth]. rewrite IH by (cbn [length] in Hs; lia). lra.
+Qed.
+(* concatenate([zeros, cumsum(a)]) *)
+Lemma cumsum_length l : length (0 :: np_cumsum Rops l) = S (length l).
+Proof. destruct l as [|x l]; [reflexivity|]. cbn [np_cumsum length]. rewrite cumsum_acc_length. reflexivity. Qed.
+Lemma cumsum_nth l : forall s, (s <= length l)%nat -> nth s (0 :: np_cumsum Rops l) 0 = rsum (firstn s l).
+Proof.
+  intros s Hs. destruct s as [|s]; [cbn [nth firstn]; rewrite rsum_nil; reflexivity|]. cbn [nth].
+  destruct l as [|x l]; [cbn in Hs; lia|]. cbn [np_cumsum]. change (firstn (S s) (x :: l)) with (x :: firstn s l).
+  rewrite rsum_cons. destruct s as [|s]; [cbn [nth firstn]; rewrite rsum_nil; lra|].
+  cbn [nth]. rewrite cumsum_acc_nth by (cbn [length] in Hs; lia). reflexivity.
 Qed.
 Lemma sorted_abs_props u : let a := sort_desc Rops (map Rabs u) in
   desc a /\ Forall (fun x => 0 <= x) a /\ length a = length u /\ Permutation a (map Rabs u).
@@ -506,14 +516,14 @@ Proof.
   set (nv := rnorm v) in *.
   unfold hier_prox_row. rewrite norm2_rnorm. fold nv. cbn [nabs nsub nmul ndiv nadd nofnat n0 n1 nltb nleb Rops].
   fold a. rewrite <- Hlen.
-  set (xs := map _ (combine (seq 0 (S (length a))) (cumsum_from Rops 0 a))).
+  set (xs := map _ (combine (seq 0 (S (length a))) (0 :: np_cumsum Rops a))).
   set (ws := map (fun x => M * x * nv) xs).
   assert (Hxs_len : length xs = S (length a)).
   { unfold xs. rewrite map_length, combine_length, seq_length, cumsum_length. apply Nat.min_id. }
   assert (Hws_len : length ws = S (length a)) by (unfold ws; rewrite map_length; exact Hxs_len).
   assert (Hxs : forall s, (s <= length a)%nat -> nth s xs 0 = X_ a alpha M nv s).
   { intros s Hs. unfold xs. rewrite (nth_map_combine_seq _ 0 _ (S (length a))); [| apply cumsum_length | lia].
-    cbn [fst snd Nat.add]. rewrite nmax_Rmax, cumsum_nth by exact Hs. rewrite Rplus_0_l. reflexivity. }
+    cbn [fst snd Nat.add]. rewrite nmax_Rmax, cumsum_nth by exact Hs. reflexivity. }
   assert (Hws : forall s, (s <= length a)%nat -> nth s ws 0 = W_ a alpha M nv s).
   { intros s Hs. unfold ws. rewrite (nth_map_in _ _ 0 0) by (rewrite Hxs_len; lia). rewrite Hxs by exact Hs. reflexivity. }
   assert (Hidx : count_true (map (fun lw : R * R => Rltb (snd lw) (fst lw))
